@@ -4,7 +4,7 @@
 cd /verif
 for d in seeded/C*-*; do
   prop=$(basename $d | cut -d- -f1)
-  out=$(SEEDS="${SEEDS:-1 2}" tools/tryseed.sh $d/patch.diff $prop 2>&1)
+  out=$(SEEDS="${SEEDS:-1 2}" tools/tryseed.sh /verif/$d/patch.diff $prop 2>&1)
   caught=$(echo "$out" | grep -c "rc=1")
   total=$(echo "$out" | grep -c "rc=")
   echo "$(basename $d): caught at $caught of $total seeds | $(echo "$out" | grep -o 'signature=[^ ]*' | sort -u | head -3 | tr '\n' ' ')"
